@@ -127,8 +127,11 @@ def check_long(case, rec):
     class _Int(int):
         pass
 
-    head = crc8404B(data[:cut]) if start is None else crc8404B(data[:cut], start_value=start)
-    chained = [crc8404B(data[cut:], head), crc8404B(data[cut:], start_value=_Int(head))]
+    try:
+        head = crc8404B(data[:cut]) if start is None else crc8404B(data[:cut], start_value=start)
+        chained = [crc8404B(data[cut:], head), crc8404B(data[cut:], start_value=_Int(head))]
+    except Exception as e:
+        raise Violation("crc8404B with the start value given by keyword (start_value=) / as an int subclass raised %s: %s" % (type(e).__name__, e))
     if any(c != want for c in chained) or head != refcrc.crc_bit(data[:cut], s0):
         raise Violation("chained call: crc8404B(b, crc8404B(a)) for a|b = %d|%d bytes, start=%r gives %r (head %r), one call over a+b gives %#06x" % (cut, len(data) - cut, start, chained, head, want))
     if start in (0, 1) and crc8404B(data, bool(start)) != want:
